@@ -63,11 +63,11 @@ class Loader:
 
         # Take into account user specified lmax
         meta["lmax"] = meta["levelmax"]
-        if "amr" in _select:
-            if _select["amr"]:
-                if "level" in _select["amr"]:
+        if "mesh" in _select:
+            if _select["mesh"]:
+                if "level" in _select["mesh"]:
                     meta["lmax"] = utils.find_max_amr_level(
-                        levelmax=meta["levelmax"], select=_select["amr"]
+                        levelmax=meta["levelmax"], select=_select["mesh"]
                     )
 
         # Initialize readers
